@@ -493,7 +493,7 @@ def depth_of(t) -> int:
 
 
 # ---------------------------------------------------------------- verdicts
-DEV_KEYS = {"excLeak": "union-vals-last", "origNested": "union-orig-nested", "inPlace": "union-in-place", "setListing": "set-listing-order", "litEq": "literal-eq",
+DEV_KEYS = {"excLeak": "union-vals-last", "origNested": "union-orig-nested", "inPlace": "union-in-place", "validateLeak": "validate-leaks-into-result", "setListing": "set-listing-order", "litEq": "literal-eq",
             "dictKey": "dict-key-unchecked", "serCollision": "set-written-with-duplicates"}
 
 
